@@ -290,7 +290,8 @@ def c05(res):
             where = {"op": rec["n"], "call": rec["op"], "frame0_gap": 0 in gaps}
             if rec["op"] == "param": where["group"] = t[1]; where["name"] = t[2]
             if rec["op"] == "frame":
-                where["emptyframe"] = not (vars_.get(t[1], EMPTY)["pts"] or vars_.get(t[1], EMPTY)["subs"])
+                # a frame that carries no point and no channel (no sub-frame, or only empty sub-frames)
+                where["emptyframe"] = not (vars_.get(t[1], EMPTY)["pts"] or any(sf for sf in vars_.get(t[1], EMPTY)["subs"]))
                 pu = getp(prev, b"POINT", b"USED") if prev is not None else None
                 # the frame brings points to an object that already stores frames while POINT:USED is 0
                 where["points_onto_pointless_frames"] = bool(prev is not None and prev["NF"] > 0 and pu and pu["type"] == "I" and pu["vals"] and int(pu["vals"][0]) == 0
